@@ -145,10 +145,12 @@ MULTI = [
    ("""            NumberDataPointValue::AsInt(AsInt(current)) => current
                 .checked_add(value)
                 .map(|value| NumberDataPointValue::AsInt(AsInt(value)))
-                .unwrap_or(NumberDataPointValue::AsDouble(AsDouble(f64::INFINITY))),""",
+                .unwrap_or(NumberDataPointValue::AsDouble(AsDouble(
+                    current as f64 + value as f64,
+                ))),""",
     """            NumberDataPointValue::AsInt(AsInt(current)) => match current.checked_add(value) {
                 Some(total) => NumberDataPointValue::AsInt(AsInt(total)),
-                None => NumberDataPointValue::AsDouble(AsDouble(f64::INFINITY)),
+                None => NumberDataPointValue::AsDouble(AsDouble(current as f64 + value as f64)),
             },""")]),
  ("B.file_record_break_carries_error", ["C13", "C10"], "emitter/file/src/lib.rs", [
    ("""            let mut r = Ok(());
